@@ -18,6 +18,9 @@ class Diagnostic:
         self.related_message = None
 
     def add_related(self, path: str, line: int, message: str):
+        if path is None:
+            # Entities of intrinsic modules have no file to point to
+            return
         self.has_related = True
         self.related_path = path
         self.related_line = line
